@@ -576,6 +576,8 @@ def make_items(ctx, rng, consts, arches, npol, nev):
                 prober += "+div"      # another thread carries a filter of its own: the kernel refuses the thread-sync
             elif not flags & 1 and r < 0.2:
                 prober += "+race"     # another thread loads a different policy at the same time
+            elif r > 0.88:
+                prober += "+twice"    # the loading thread already carries an (almost never matching) filter
         dw = pol["default"]
         items.append(dict(cid="k%d" % i, tokens=PolicyGen.tokens(pol), events=eg.events(pol, nev if kind != "oversize" and not kind.startswith("truncation") else 4),
                           flags=flags, nnp=nnp, uid=uid, prober=prober, kind=kind, default_word=dw))
